@@ -531,6 +531,41 @@ pub fn run(args: &Args) -> Report {
     rep
 }
 
+fn count_tags(g: &a2lfile::GenericIfData) -> usize {
+    use a2lfile::GenericIfData as G;
+    match g {
+        G::Array(v) | G::Sequence(v) | G::Struct(_, _, v) => v.iter().map(count_tags).sum(),
+        G::Block { items, .. } => items.iter().map(count_tags).sum(),
+        G::TaggedStruct(m) | G::TaggedUnion(m) => m.values().map(|l| 1 + l.iter().map(|i| count_tags(&i.data)).sum::<usize>()).sum(),
+        _ => 0,
+    }
+}
+
+/// empties the list of occurrences of the n-th tag (in sorted key order, depth first)
+fn empty_one_tag(g: &mut a2lfile::GenericIfData, n: &mut usize) -> bool {
+    use a2lfile::GenericIfData as G;
+    match g {
+        G::Array(v) | G::Sequence(v) | G::Struct(_, _, v) => v.iter_mut().any(|x| empty_one_tag(x, n)),
+        G::Block { items, .. } => items.iter_mut().any(|x| empty_one_tag(x, n)),
+        G::TaggedStruct(m) | G::TaggedUnion(m) => {
+            let mut keys: Vec<String> = m.keys().cloned().collect();
+            keys.sort();
+            for key in keys {
+                if *n == 0 {
+                    m.get_mut(&key).unwrap().clear();
+                    return true;
+                }
+                *n -= 1;
+                if m.get_mut(&key).unwrap().iter_mut().any(|i| empty_one_tag(&mut i.data, n)) {
+                    return true;
+                }
+            }
+            false
+        }
+        _ => false,
+    }
+}
+
 /// one document with the definition `a2ml` and the given IF_DATA contents; every block that the library flags valid is
 /// decoded with the typed code of `s`
 fn run_batch(rep: &mut Report, s: &SpecCase, a2ml: &str, insts: &[Vec<String>], conforming: bool) {
@@ -566,6 +601,27 @@ fn run_batch(rep: &mut Report, s: &SpecCase, a2ml: &str, insts: &[Vec<String>], 
             continue;
         }
         let rt = s.roundtrip;
+        // trees that only the API can build (the type and its fields are public): a tag whose list of occurrences is
+        // empty, in place of each tag in turn and as an additional tag - decoding yields a value or none, never a panic
+        {
+            let mut variants: Vec<a2lfile::IfData> = vec![];
+            let ntags = ifdata.ifdata_items.as_ref().map_or(0, count_tags);
+            for which in 0..ntags.min(6) {
+                let mut v = ifdata.clone();
+                if let Some(g) = v.ifdata_items.as_mut() {
+                    let mut n = which;
+                    empty_one_tag(g, &mut n);
+                }
+                variants.push(v);
+            }
+            for v in &variants {
+                rep.bump("hand-built:empty-occurrence-list");
+                if let Err(p) = catch(|| rt(v).is_some()) {
+                    rep.fail("mismatch-panic", input.clone(), format!("typed decoding of block #{k} [{}] with {}, one tag given an empty list of occurrences through the API, panicked: {p}", insts[k].join(" "), s.name));
+                    break;
+                }
+            }
+        }
         match catch(|| rt(ifdata)) {
             Err(p) => {
                 outcome.push("PANIC".into());
